@@ -40,6 +40,12 @@ def fx():
 def test_first(fx):
     for n in {test!r}:
         probe(n, "test")
+    if {nested!r}:
+        # a nested in-process pytest session that does not use the option (pytester-style inline runs, plugin test suites) starts
+        # and finishes while this one is running
+        import os
+        rc = pytest.main(["-q", "-p", "no:cacheprovider", "-p", "jaxtyping._pytest_plugin", os.path.join(os.path.dirname(__file__), "inner", "test_vf_inner.py")])
+        RESULTS["nested-session-exit"] = int(rc)
 
 def test_second():
     for n in {later!r}:
@@ -55,7 +61,8 @@ def pytest_scenario(draw, modules, hook_names):
     k = draw(st.integers(3, 6))
     chosen = list(order[:k])
     whens = [draw(st.sampled_from(["test", "collect", "later", "fixture"])) for _ in chosen]
-    return {"pytest_real": {"names": names, "checker": draw(st.sampled_from(["a", "b"])), "imports": [[m, w] for m, w in zip(chosen, whens)]}}
+    return {"pytest_real": {"names": names, "checker": draw(st.sampled_from(["a", "b"])), "imports": [[m, w] for m, w in zip(chosen, whens)],
+                            "nested": draw(st.sampled_from([True, False]))}}
 
 
 def matches(mod, name):
@@ -70,7 +77,10 @@ def check_pytest_real(ctx, case, forest_dir):
             f.write(SPY)
         by = {w: [m for m, ww in sc["imports"] if ww == w] for w in ("collect", "fixture", "test", "later")}
         with open(os.path.join(d, "test_vf_c11.py"), "w") as f:
-            f.write(TEST_TEMPLATE.format(**by))
+            f.write(TEST_TEMPLATE.format(nested=bool(sc.get("nested")), **by))
+        os.makedirs(os.path.join(d, "inner"))
+        with open(os.path.join(d, "inner", "test_vf_inner.py"), "w") as f:
+            f.write("def test_inner():\n    assert True\n")
         env = dict(os.environ, PYTEST_DISABLE_PLUGIN_AUTOLOAD="1", PYTHONDONTWRITEBYTECODE="1")
         env["PYTHONPATH"] = os.pathsep.join([d, forest_dir, env.get("PYTHONPATH", "")])
         opt = ",".join(sc["names"] + [f"vf_spy.{sc['checker']}"])
@@ -82,6 +92,8 @@ def check_pytest_real(ctx, case, forest_dir):
         got = json.loads(line[0].split("VF11PYTEST", 1)[1])
     finally:
         shutil.rmtree(d, ignore_errors=True)
+    if sc.get("nested") and got.get("nested-session-exit") != 0:
+        raise HarnessError(f"nested pytest session did not pass: {got}")
     seen = set()
     for m, w in sc["imports"]:
         if m in seen:
@@ -92,4 +104,4 @@ def check_pytest_real(ctx, case, forest_dir):
         if have != want:
             raise Violation("pytest-session", case, f"pytest --jaxtyping-packages={opt}: module {m} first imported at stage '{w}': ill-typed call {have}, expected {want}; all: {got}")
     ctx.note(["pytest-real", sc], any(w in ("test", "later", "fixture") and any(matches(m, n) for n in sc["names"]) for m, w in sc["imports"]),
-             classes=["pytest-session"] + sorted({f"pytest-import-at-{w}" for _, w in sc["imports"]}), sample={"pytest_session": sc})
+             classes=["pytest-session"] + (["pytest-nested-session-in-between"] if sc.get("nested") else []) + sorted({f"pytest-import-at-{w}" for _, w in sc["imports"]}), sample={"pytest_session": sc})
